@@ -372,7 +372,7 @@ def run(ctx, obl):
     env_res = {}
     picked, seen_cmd = [], set()
     for job, ob in zip(jobs, results):
-        if "failed" not in ob and (job["pk"]["cmd"], job["mode"]) not in seen_cmd and len(picked) < ctx.n(4, 12):
+        if "failed" not in ob and (job["pk"]["cmd"], job["mode"]) not in seen_cmd and len(picked) < ctx.n(2, 12):
             seen_cmd.add((job["pk"]["cmd"], job["mode"]))
             picked.append((job, ob))
     for job, ob in picked:
